@@ -26,6 +26,32 @@ def run_bin(args, stdin=b"", timeout=20, env=None, cwd=None, retry_if=None):
     return r
 
 
+def run_bin_failing_stdout(args, how, stdin=b"", timeout=30):
+    """runs the binary with a standard output that fails: how = 'full' (ENOSPC, /dev/full) or 'closed' (a pipe whose
+    reader is gone, EPIPE).  Returns dict(rc, err, how)."""
+    if how == "full":
+        out = open("/dev/full", "w")
+        close_after = [out]
+    else:
+        r, w = os.pipe()
+        os.close(r)
+        out = w
+        close_after = []
+    try:
+        p = subprocess.run([core.P2SH] + list(args), input=stdin, stdout=out, stderr=subprocess.PIPE, timeout=timeout)
+        res = {"rc": p.returncode, "out": b"", "err": p.stderr, "how": "exit" if p.returncode >= 0 else "signal"}
+        if p.returncode == 101 or b"panicked at" in p.stderr:
+            res["how"] = "panic"
+        return res
+    except subprocess.TimeoutExpired as ex:
+        return {"rc": None, "out": b"", "err": ex.stderr or b"", "how": "timeout"}
+    finally:
+        for f in close_after:
+            f.close()
+        if how != "full":
+            os.close(w)
+
+
 def _run_bin(args, stdin=b"", timeout=20, env=None, cwd=None):
     e = dict(os.environ)
     e.pop("P2SH_VERIF_REPL", None)
